@@ -23,3 +23,17 @@ pub fn string_eq_str(a: &String, b: &str) -> (r: bool)
 pub fn string_eq(a: &String, b: &String) -> (r: bool)
     ensures r == (a@ == b@)
 { a == b }
+
+// class S: [String]::join(sep)
+pub open spec fn join_spec(v: Seq<String>, sep: Seq<char>) -> Seq<char>
+    decreases v.len()
+{
+    if v.len() == 0 { Seq::<char>::empty() }
+    else if v.len() == 1 { v[0]@ }
+    else { join_spec(v.drop_last(), sep) + sep + v.last()@ }
+}
+
+#[verifier::external_body]
+pub fn slice_join(v: &[String], sep: &str) -> (r: String)
+    ensures r@ == join_spec(v@, sep@)
+{ v.join(sep) }
